@@ -50,12 +50,12 @@ func genDefault(t *rapid.T, typ string, o Opts) string {
 		return ""
 	}
 	if isNumeric(typ) {
-		return rapid.SampledFrom([]string{"0", "1", "-1", "42", "3.14", "(1 + 1)"}).Draw(t, "ndef")
+		return rapid.SampledFrom([]string{"0", "1", "-1", "42", "3.14", "(1 + 1)", "0.0", "1.50", ".5", "+2", "1e3"}).Draw(t, "ndef")
 	}
 	tl := strings.ToLower(typ)
 	switch {
 	case tl == "bool" || tl == "boolean":
-		return rapid.SampledFrom([]string{"0", "1", "true", "false"}).Draw(t, "bdef")
+		return rapid.SampledFrom([]string{"0", "1", "true", "false", "TRUE", "FALSE"}).Draw(t, "bdef")
 	case tl == "blob":
 		return rapid.SampledFrom([]string{"x'0A'", "x''", "'b'"}).Draw(t, "xdef")
 	case tl == "date" || tl == "datetime":
